@@ -198,7 +198,7 @@ def connOp (sc : Scn) (cid : String) (dc : DConn) (op : String) (args ts : List 
     -- http.ReadResponse consumed n header lines from the connection's own bufio.Reader
     match n.toNat? with
     | some n =>
-      let b := (List.range n).foldl (fun b _ => b.readLine (b.total + 2)) dc.r.buf
+      let b := (List.range n).foldl (fun b _ => b.readLine (2 * b.total + 2)) dc.r.buf
       (sc.putDConn cid { dc with r := { dc.r with buf := b } }, "ok")
     | none => (sc, "bad-op")
   | "lim", l :: _ =>
